@@ -975,4 +975,17 @@ example :
       [.trait DelWitness.wKey 0 nMate (.ref 1) .none] := by
   decide
 
+open TraitsVerif.Model.ObsL in
+/-- SOURCE TIE.  What an item maintainer does when its container changes — `maintCont`: walk the downstream graph
+from every removed item with remove=True, then from every added item with remove=False, each walk an outermost
+call with its own undo log, the first exception propagating — is the interpretation of the three
+`_observer_change_handler` functions (_list_item_observer.py, _dict_item_observer.py — over `.values()` —,
+_set_item_observer.py) as translated by harness/translate/obsl.py, for every heap, graph, handler key, change
+event and well-formed hooks. -/
+theorem C08_maintain_items_is_source (h : Heap) (k : HKey) (g : Graph) (ev : CEvent) (H : Hooks) (hw : WF H)
+    (n : Nat) (hn : need g ≤ n) :
+    run h Generated.observeProg (n + 1) (.fn (contHandlerName ev) (contHandlerArgs ev g k)) (H, []) =
+      (((maintCont h g k ev H).H, []), flowOf (maintCont h g k ev H).err) :=
+  run_cont_handler h k g ev H hw n hn
+
 end TraitsVerif.Props.C08
